@@ -225,6 +225,57 @@ func (cb *c13CB) doDelHead(r int) {
 	delete(cb.heads, r)
 }
 
+// orphanDAG: the commits of dag (parents = indices of earlier commits, any of 0..2) are fetched
+// through the real ObjectSender sequence under one branch per tip, then those branches are
+// deleted: an unreferenced sub-DAG with forks and merges. Returns the abstract commits.
+func (cb *c13CB) orphanDAG(dag [][]int, tables []c13Rows, nn func() int) []*xt.T {
+	cs := make([]*xt.T, len(dag))
+	hasChild := make([]bool, len(dag))
+	for i, ps := range dag {
+		var pc []*xt.T
+		for _, p := range ps {
+			pc = append(pc, cs[p])
+			hasChild[p] = true
+		}
+		cs[i] = c13MkCid(cb.table(tables[i%len(tables)]), pc, nn())
+	}
+	seq := cb.senderSeq(cs, nil)
+	var upd []*xt.T
+	var tips []int
+	r := 1
+	for i := range dag {
+		if !hasChild[i] && r < 10 {
+			upd = append(upd, c13Upd(r, cs[i], true))
+			tips = append(tips, r)
+			r++
+		}
+	}
+	cb.step(c13OpFetch(seq, upd))
+	for _, t := range tips {
+		cb.step(c13OpDelHead(t))
+	}
+	cb.g.ctx.Count("orphan_dags")
+	cb.g.ctx.Info["orphan_dag_commits"] += len(dag)
+	forks, merges := 0, 0
+	nchild := make([]int, len(dag))
+	for _, ps := range dag {
+		if len(ps) > 1 {
+			merges++
+		}
+		for _, p := range ps {
+			nchild[p]++
+		}
+	}
+	for _, n := range nchild {
+		if n > 1 {
+			forks++
+		}
+	}
+	cb.g.ctx.Info["orphan_dag_forks"] += forks
+	cb.g.ctx.Info["orphan_dag_merges"] += merges
+	return cs
+}
+
 func (cb *c13CB) emit(tag string, nontrivial bool, op, op2 *xt.T, workers int, cli bool) {
 	c := xt.N(cb.specs, cb.setup, op, op2, xt.N(xt.LI(workers), xt.Bool(cli)))
 	cb.g.cases = append(cb.g.cases, Case{Tag: tag, Nontrivial: nontrivial, C: c})
@@ -587,6 +638,64 @@ func genC13(ctx *Ctx) []Case {
 			cb.doDelHead(1)
 			cb.crashed(c13OpPrune(), cut)
 			cb.emit("prune", true, c13OpPrune(), c13OpPrune(), 1, false)
+		}
+		// orphan sub-DAGs with forks and merges of unequal branch lengths: every crash prefix (and a
+		// write error at every delete) of the commit-deletion phase must leave every stored commit
+		// with its parents, i.e. the code's order must be a children-first order whatever the hash
+		// order is. Witnesses first: a<-b<-c<-e with a<-d (a breadth-first walk from the heads e, d
+		// deletes a before b); an orphan merge of two orphan branches; a diamond with a long side.
+		dagTables := []c13Rows{rA, rA2, rD, rB, rB2}
+		fixedDAGs := [][][]int{
+			{{}, {0}, {1}, {0}, {2}},                     // a<-b<-c<-e and a<-d (indices a0 b1 c2 d3 e4)
+			{{}, {0}, {0}, {1, 2}},                       // merge of two orphan branches
+			{{}, {0}, {1}, {2}, {0}, {3, 4}},             // diamond, sides of length 3 and 1
+			{{}, {0}, {1}, {2}, {3}, {0}, {5, 1}},        // fork at the root, merge into the middle of the long side
+			{{}, {}, {0, 1}, {2}, {0}, {4}, {5}, {3, 6}}, // two roots, merges, unequal sides
+		}
+		for _, dag := range fixedDAGs {
+			for rep := 0; rep < 2; rep++ { // two nonce sets = two hash orders
+				cb := g.newCase()
+				cb.doCommit(0, rA, nn())
+				cb.orphanDAG(dag, dagTables, nn)
+				cb.emit("prune-dag", true, c13OpPrune(), c13OpPrune(), 1, false)
+			}
+		}
+		ndag := 8
+		if thorough {
+			ndag = 120
+		}
+		for i := 0; i < ndag; i++ {
+			n := 4 + ctx.Pick(6)
+			dag := make([][]int, n)
+			for j := 1; j < n; j++ {
+				switch k := ctx.Pick(10); {
+				case k < 1:
+					// another root
+				case k < 7 || j < 2:
+					// one parent: mostly the previous commit (long sides), else any earlier one (forks)
+					if ctx.Pick(3) > 0 {
+						dag[j] = []int{j - 1}
+					} else {
+						dag[j] = []int{ctx.Pick(j)}
+					}
+				default:
+					a, b := ctx.Pick(j), ctx.Pick(j)
+					if a == b {
+						dag[j] = []int{a}
+					} else {
+						dag[j] = []int{a, b}
+					}
+				}
+			}
+			cb := g.newCase()
+			// sometimes the kept branch shares a table (and its blocks) with the orphans
+			if ctx.Pick(2) == 0 {
+				cb.doCommit(0, rB, nn())
+			} else {
+				cb.doCommit(0, rC.without(300, 200), nn())
+			}
+			cb.orphanDAG(dag, dagTables, nn)
+			cb.emit("prune-dag", true, c13OpPrune(), c13OpPrune(), 1, false)
 		}
 		// nothing to do at all
 		cb = g.newCase()
